@@ -21,6 +21,7 @@ import IocProofs.Lemmas.M2TermSelf
 import IocProofs.Lemmas.M2SucceedsPerm
 import Ioc.Generated.Facts
 import IocProofs.Lemmas.SemCreate
+import IocProofs.Lemmas.SemRefresh
 namespace Ioc.C02
 open Ioc Ioc.M2
 
@@ -241,5 +242,23 @@ theorem C02_code_exposure_before_populate (d : Sem.DCC) (hc : Sem.dccConsistent 
     all_goals simp_all
   obtain ⟨rest, hr⟩ := htr
   exact ⟨_, rest, (Sem.doCreateComponent_sem d hc).trans (by rw [hr])⟩
+
+/-! ### the tie to the code: Meta.IsSelf (regenerated, a three-clause loop)
+
+`Ioc.Progs.meta_IsSelf` is the syntax tree of Meta.IsSelf (meta.go:76-83) — the test behind "never wired to itself"
+(`Property.Inject` drops the candidates for which the holder's `IsSelf` answers true, `C06_code_Inject`).  For a proxy chain
+of EVERY length (metas numbered from the chain's end), every assignment of origin addresses and every holder address, the
+regenerated loop answers true exactly when SOME meta of the chain — the candidate itself or anything it proxies, at any
+depth — originates from the holder's address (`Sem.isSelfModel`); `nil` is never self.  The three-clause loop is interpreted
+with fuel; the statement holds for every fuel above the chain length + 1 (out of fuel is `none`, never a made-up answer). -/
+theorem C02_code_IsSelf (selfPtr : Nat) (addr : Nat → Nat) (t : Option Nat) (fuel : Nat)
+    (hf : (match t with | none => 1 | some k => k + 2) ≤ fuel) :
+    Go.run (Sem.isSelfPrims selfPtr addr fuel) Progs.meta_IsSelf [Sem.encMetaO t] () =
+      some (.bool (Sem.isSelfModel selfPtr addr t), ()) :=
+  Sem.isSelf_sem selfPtr addr t fuel hf
+
+/-- non-vacuity: a chain of three metas whose innermost (meta 0) is the holder's own instance -/
+example : Sem.isSelfModel 77 (fun k => if k == 0 then 77 else 10 + k) (some 2) = true ∧
+    Sem.isSelfModel 77 (fun k => 10 + k) (some 2) = false := by decide
 
 end Ioc.C02
